@@ -178,6 +178,19 @@ MutConflictingArgs(S, doc) ==
                    : a \in DOMAIN d.args}
          : x \in {y \in FieldSites(S, doc) : HasField(S, y.T, y.s.name) /\ IsComposite(S, y.T)}}
 
+\* three selections under one new response name below an interface-typed position, in every order: on object type A its
+\* field f, on another object type B a field g of the same type (fine against A: the parents cannot overlap), and f on the
+\* interface itself (conflicts with g on B unless g = f)
+Perms3(a, b, c) == {<<a, b, c>>, <<a, c, b>>, <<b, a, c>>, <<b, c, a>>, <<c, a, b>>, <<c, b, a>>}
+LeafNoArgFields(S, T) == {f \in FieldNamesOf(S, T) : IsLeafType(S, FieldDef(S, T, f).type.n) /\ MinArgs(S, FieldDef(S, T, f).args) = <<>>}
+MutConflictingTriple(S, doc) ==
+  UNION {UNION {UNION {{EditSet(doc, x, x.sel \o p)
+                        : p \in Perms3(dInl(ab[1], <<dFA("zx", f, <<>>, <<>>)>>), dInl(ab[2], <<dFA("zx", g, <<>>, <<>>)>>), dFA("zx", f, <<>>, <<>>))}
+                       : g \in {h \in LeafNoArgFields(S, ab[2]) : FieldDef(S, ab[2], h).type = FieldDef(S, x.T, f).type}}
+                : <<ab, f>> \in {y \in (PossibleTypes(S, x.T) \X PossibleTypes(S, x.T)) \X LeafNoArgFields(S, x.T) :
+                                 y[1][1] # y[1][2] /\ FieldDef(S, y[1][1], y[2]).type = FieldDef(S, x.T, y[2]).type}}
+         : x \in {y \in SetSites(S, doc) : TypeKind(S, y.T) = "INTERFACE"}}
+
 ----------------------------------------------------------------------------
 \* fragments
 FragIdx(doc) == {r[2] : r \in {x \in ReachRoots(doc) : x[1] = "frag"}}
@@ -282,10 +295,27 @@ MutOperations(S, doc) ==
           [doc EXCEPT !.ops = Append(@, [doc.ops[i] EXCEPT !.name = ""])]}
          : i \in OpIdx(doc)}
 
+\* A sibling operation (not selected by operationName) that declares a variable of the selected operation under the same
+\* name with another type - with the variable still declared on the selected operation (nothing changes for the executed
+\* part: valid) or with its definition removed there (the variable is undefined where it is used: invalid).  The sibling is a
+\* valid operation of its own; the selected operation gets a name if it had none.
+SiblingFor(S, n) ==
+  CASE S.id = "pets" -> dOp("query", "Sib", <<dVar(n, NN(Ty("String")), Absent)>>, <<dF("human", <<dA("name", VVar(n))>>, <<dLf("name")>>)>>)
+    [] S.id = "args" -> dOp("query", "Sib", <<dVar(n, Ty("Boolean"), Absent)>>, <<dF("b", <<dA("x", VVar(n))>>, <<>>)>>)
+    [] OTHER -> dOp("query", "Sib", <<dVar(n, NN(Ty("Boolean")), Absent)>>, <<dFD("maybe", <<>>, <<dDir("skip", <<dA("if", VVar(n))>>)>>, <<dLf("id")>>)>>)
+MutSiblingOperation(S, doc) ==
+  UNION {LET named == IF doc.ops[ij[1]].name = "" THEN [doc EXCEPT !.ops[ij[1]].name = "Sel", !.opName = "Sel"]
+                      ELSE [doc EXCEPT !.opName = doc.ops[ij[1]].name]
+             n == doc.ops[ij[1]].vars[ij[2]].name
+             undef == [named EXCEPT !.ops[ij[1]].vars = RemoveAt(@, ij[2])]
+         IN {[d EXCEPT !.ops = <<SiblingFor(S, n)>> \o @] : d \in {named, undef}}
+            \cup {[d EXCEPT !.ops = Append(@, SiblingFor(S, n))] : d \in {named, undef}}
+         : ij \in {x \in VarIdx(doc) : Len(doc.ops) = 1}}
+
 ----------------------------------------------------------------------------
 MutationKinds == <<"UnknownField", "DropRequiredArg", "UnknownArg", "DupArg", "WrongValueKind", "InputObjectField",
                    "CyclicFragment", "UnknownFragment", "ImpossibleSpread", "UndefinedVar", "UnusedVar",
-                   "VarInWrongPosition", "DupVar", "NonInputVar", "ConflictingResponseName", "ConflictingArgs", "LeafWithSelection",
+                   "VarInWrongPosition", "DupVar", "NonInputVar", "ConflictingResponseName", "ConflictingArgs", "ConflictingTriple", "SiblingOperation", "LeafWithSelection",
                    "CompositeWithoutSelection", "UnknownDirective", "MisplacedDirective", "DirectiveMissingArg", "DupDirective",
                    "TwoSubscriptionRoots", "IntrospectionSubscriptionRoot", "Operations">>
 
@@ -306,6 +336,8 @@ MutantsOfKind(kind, S, doc) ==
     [] kind = "NonInputVar" -> MutNonInputVar(S, doc)
     [] kind = "ConflictingResponseName" -> MutConflictingResponseName(S, doc)
     [] kind = "ConflictingArgs" -> MutConflictingArgs(S, doc)
+    [] kind = "ConflictingTriple" -> MutConflictingTriple(S, doc)
+    [] kind = "SiblingOperation" -> MutSiblingOperation(S, doc)
     [] kind = "LeafWithSelection" -> MutLeafWithSelection(S, doc)
     [] kind = "CompositeWithoutSelection" -> MutCompositeWithoutSelection(S, doc)
     [] kind = "UnknownDirective" -> MutUnknownDirective(S, doc)
